@@ -1,4 +1,4 @@
-(* C18 — concrete witnesses: the faithful model violates all-or-nothing in four ways, and the
+(* C18 — concrete witnesses: the faithful model violates all-or-nothing (process exit / panic), and the
    hypotheses of the proved theorems are satisfiable (non-vacuity).
    The tree is corpus/C18/two-roots.json (the correspondence check runs it first, for every fault
    index, so model and implementation are known to agree on exactly these runs). *)
@@ -111,12 +111,15 @@ Ltac leftover := unfold leftover_at; split; [exact ex_fs_wf|]; split; [vm_comput
                  split; [vm_compute; reflexivity|]; split; [apply removes_okb_spec; vm_compute; reflexivity|];
                  vm_compute; reflexivity.
 
-(* (a) ConfirmDir's CleanedAbs fails right after Mkdir(newDir): cleanup removes "" *)
-Lemma leftover_1 : leftover_at 3 XErr.
-Proof. leftover. Qed.
-(* (b) MkdirAll(dst) fails: no cleanup on that path *)
-Lemma leftover_2 : leftover_at 4 XErr.
-Proof. leftover. Qed.
+(* Shapes (a) "ConfirmDir fails right after Mkdir(newDir)" and (b) "MkdirAll(dst) fails" were
+   repaired in /repo by d268200: both now clean up.  Regression examples on the same inputs: *)
+Example repaired_a :
+  snd (ex_run (Some 3)) = OExn XErr /\ exists_path (w_fs (fst (ex_run (Some 3)))) ex_nd = false.
+Proof. vm_compute. split; reflexivity. Qed.
+Example repaired_b :
+  snd (ex_run (Some 4)) = OExn XErr /\ exists_path (w_fs (fst (ex_run (Some 4)))) ex_nd = false.
+Proof. vm_compute. split; reflexivity. Qed.
+
 (* (c) CleanedAbs fails inside cleanedRelativePath: log.Fatalf, the process exits *)
 Lemma leftover_3 : leftover_at 7 XFatal.
 Proof. leftover. Qed.
@@ -124,17 +127,13 @@ Proof. leftover. Qed.
 Lemma leftover_4 : leftover_at 18 XPanic.
 Proof. leftover. Qed.
 
-Lemma all_or_nothing_refuted_1 : exists i, leftover_at i XErr /\ i = 3.
-Proof. exists 3. split; [exact leftover_1 | reflexivity]. Qed.
-Lemma all_or_nothing_refuted_2 : exists i, leftover_at i XErr /\ i = 4.
-Proof. exists 4. split; [exact leftover_2 | reflexivity]. Qed.
 Lemma all_or_nothing_refuted_3 : exists i, leftover_at i XFatal.
 Proof. exists 7. exact leftover_3. Qed.
 Lemma all_or_nothing_refuted_4 : exists i, leftover_at i XPanic.
 Proof. exists 18. exact leftover_4. Qed.
 
 Lemma all_or_nothing_law_false : ~ all_or_nothing_law.
-Proof. exact (leftover_refutes _ _ leftover_1). Qed.
+Proof. exact (leftover_refutes _ _ leftover_3). Qed.
 
 (* ---- non-vacuity ---- *)
 
@@ -147,11 +146,14 @@ Example ex_success :
   lookup ["new"; "t"; "p.yaml"] (w_fs (fst (ex_run None))) = Some (EFile (CRaw 7)).
 Proof. vm_compute. repeat split; reflexivity. Qed.
 
-(* the hypotheses of all_or_nothing_partial are met by a fault on ReadFile(dep.yaml) (index 11) *)
+(* the hypotheses of all_or_nothing_partial are met by a fault on ReadFile(dep.yaml) (index 11),
+   and by the early ones (3: ConfirmDir of newDir, 4: MkdirAll(dst)) *)
 Example ex_partial_hyps :
+  exists_path ex_fs ex_nd = false /\
   snd (ex_run (Some 11)) = OExn XErr /\
-  has_mkdirall_okb (w_trace (fst (ex_run (Some 11)))) = true /\
   removes_okb (w_trace (fst (ex_run (Some 11)))) = true /\
+  removes_okb (w_trace (fst (ex_run (Some 3)))) = true /\
+  removes_okb (w_trace (fst (ex_run (Some 4)))) = true /\
   exists_path (w_fs (fst (ex_run (Some 11)))) ex_nd = false.
 Proof. vm_compute. repeat split; reflexivity. Qed.
 
